@@ -3,15 +3,15 @@
  "property": "C12",
  "standin": "B-gsu",
  "bound": "displays with <= 3 elements x 4 layouts x 4 kinds x delete subsets x 5 insert patterns (1500 sampled cases quick / all thorough) through the real apply_all + new_code",
- "input": "('list', 'single', ('1', '0+2'), (0,), {1: ['\"\"\"x\\ny\"\"\"']})",
- "detail": "result does not parse (unmatched ']'): 'x = \\'\u00e4\u00f6\\'; v =\"\"\"x\\ny\"\"\", , 0+2]  # tail\\ny = 2\\n'"
+ "input": "('list', 'trailing', ('f(5)', '[3,\\n  4]'), (1,), {0: ['7']})",
+ "detail": "result does not parse (closing parenthesis ']' does not match opening parenthesis '('): \"x = '\u00e4\u00f6'; v =7,  [f(]  # tail\\ny = 2\\n\""
 }
 """
 
 import sys, tempfile
 sys.path.insert(0, "/verif")
 from bounded.b_gsu import one_case
-msg = one_case(tempfile.mkdtemp(), *('list', 'single', ('1', '0+2'), (0,), {1: ['"""x\ny"""']}))
-print(('list', 'single', ('1', '0+2'), (0,), {1: ['"""x\ny"""']}), "->", msg)
+msg = one_case(tempfile.mkdtemp(), *('list', 'trailing', ('f(5)', '[3,\n  4]'), (1,), {0: ['7']}))
+print(('list', 'trailing', ('f(5)', '[3,\n  4]'), (1,), {0: ['7']}), "->", msg)
 assert msg is None, msg
 
